@@ -1,30 +1,44 @@
 CHECK = {
   'level': 'exploration',
   'engine': 'seqx',
-  'technique': 'bounded exhaustive enumeration of INI file texts x set() histories x ways of writing, and of CSV tables over a 13-cell alphabet, '
+  'technique': 'bounded exhaustive enumeration of INI file texts x set() histories x ways of writing, and of CSV tables over a 15/19-cell alphabet x writer configurations x readers, '
                'executed on the real IniFile / TabularDataFile with scratch files and compared with a plain std:: line parser + std::map model and the written cell table; ASan',
-  'level_text': 'Every INI text of up to 4 lines (thorough: 5) over {[a],[b],x=1,y=2,"  z=3","# c","; c",empty} x {LF,CRLF} x {final newline, none} is put on disk, '
-                'every history of up to 2 set() calls (thorough: 3 on texts of up to 4 lines) over {a/x,a/n,b/y,c/k,x} x {v,"w w"} is applied through the real IniFile and written by the '
-                'destructor or by write() + destructor (thorough, texts of up to 3 lines: write() after every prefix of the history); 20-call histories with a write() in the middle run on every '
-                'text of up to 3 lines. After every write the raw text is re-parsed by an independent line parser (comment lines and untouched entries must be the same sequence as before) and a '
-                'fresh IniFile must return every set value (under the name used in set()) and every untouched pre-existing value. Every CSV table of the shapes 1x1..2x2, 3x1, 1x3 (thorough also '
-                '3x2, 2x3) over {1,-2.5,1e-7,123456789012345,"",a,",",";","\\"","\'"," ","a,b","\\"q\\""} and 26 fill patterns of every shape up to 30x8 are written cell-wise and as row arrays, read back by a '
-                'fresh TabularDataFile (data(), nextRow()/[i]/[name]) and compared cell for cell, type-aware, numbers by their %.15g rendering. Complete enumeration, no sampling.',
-  'level_note': 'Right level: both classes are line-oriented; the control flow depends on the kind of each line / cell and on a handful of positions (first/last line, first header, blank runs), '
+  'level_text': 'INI line alphabet A10 = {[a],[ab],x=1,"y = a=b","  z=3","# c","; x=9",empty,"  # c",x=5} (section names where one is a prefix of the other, a value containing "=", blanks around "=", '
+                'an indented entry, comments with and without "=" and indentation, the same key with another value); structural sub-alphabets A7 = A10 without {"; x=9","  # c",x=5} and A6 = A7 without "y = a=b". '
+                'Every text is put on disk as LF and CRLF, with and without a final newline. Histories are sequences over the 15 operations {a/x,a/n,ab/y,c/k,x} x {v,"w w",""}, applied through the real IniFile in seven ways of writing: '
+                'D destructor only; W write() after the last set + destructor; P write() after every proper prefix; O write(otherPath) after the last set (the other file and, after destruction, the original are both checked); '
+                'R IniFile(path,false) + write(); B assignment through operator[] + destructor; b operator[] + write(). quick: A10 texts <=3 lines x histories <=1 x {D,W,R,B}; A10 texts <=2 lines x 1 set x {O,b} and x 2 sets x {D,W}; '
+                'A10 texts <=1 line x 2 sets x {P,O,R,B,b}; A7 3-line texts (LF) x 2 sets x D; A7 4-line texts (LF) x histories <=1 x D; 20-call histories (30 rotations through the 15 operations) with write() after none/10/20 calls on A10 texts <=2 lines; '
+                '10 fixed long texts (22, 20, 19, 17, 16, 15 lines; lines of 254 and 300 characters) x histories <=2 x {D,W,R} + the 20-call histories. thorough adds (ASan) A10 4-line texts x histories <=1 x D, A10 3-line texts (LF) x 2 sets x D, '
+                'A10 texts <=1 line x 3 sets x {D,P}, A10 3-line texts x 1 set x {O,b}, the 20-call histories on A10 texts <=3 lines (and write() after 0/1/19 calls on texts <=2 lines), and (no sanitizer) A10 texts <=3 lines x histories <=2 x D, '
+                'A10 4-line texts (LF) x histories <=2 x D, A6 5-line texts (LF) x histories <=2 x D, A7 3-line texts x 3 sets x D, A7 texts <=2 lines x 3 sets x {D,W}, A10 texts <=3 lines (LF) x 2 sets x {P,O,R,b}, A10 3-line texts x 2 sets x W. '
+                'After every write the raw text is re-parsed by an independent line parser (comment lines, verbatim, and untouched entries must be the same sequence as before) and a fresh IniFile must return every set value (under the name used '
+                'in set()) and every untouched pre-existing value (an entry the text defines twice with different values: either of them). '
+                'CSV cells: {1,-2.5,1e-7,123456789012345,"",a,",",";","\\"","\'"," ","a,b","\\"q\\"",1e20,0.123456789012345} (15) + {0.1f as float, a 9-character string, a 40-character string with quotes/separators/blanks, tab} (19). '
+                'Writer configurations: default; setSeparator(\';\') + setDecimal(\',\'); setSeparator(tab). Readers: an unconfigured fresh TabularDataFile (auto-detection; not demanded for one-column files of a non-default configuration, which '
+                'contain no separator to detect) and one given the writer\'s settings. Every table 1x1, 1x2, 2x1 over the 19 cells and 3x1, 1x3, 2x2 over the 15 cells (2x2 quick: default/auto, \';\'/auto, tab/configured; thorough all five) and, thorough without sanitizer, '
+                'every 3x2 and 2x3 table over 9 cells {1,-2.5,1e20,"",a,",",";","\\"","a,b"} in default/auto, \';\'/configured, tab/auto; 38 fill patterns of every shape up to 30x8 (quick: the non-default configurations with 3 of them). '
+                'All written cell-wise and as row arrays, read back with data() or nextRow()/[i]/[name] and compared cell for cell, type-aware, numbers by the digits written (%.15g; %.7g for a float). Complete enumeration, no sampling.',
+  'level_note': 'Right level: both classes are line-oriented; the control flow depends on the kind of each line / cell and on a handful of positions (first/last line, first header, blank runs, the 16 reserved lines, the 254-character read chunk), '
                 'which the alphabets cover exhaustively at these lengths. Values/keys are the fixed ones of the alphabet (identifier keys, values without outer blanks), as the quantifier states; '
-                'digit-only or "-" strings are excluded from CSV string cells because the reader types them as numbers. The largest products (5-line texts x 2 sets, 4-line texts x 3 sets, 3x2/2x3 tables) '
-                'run in part c18_deep without sanitizer (value and order oracles only); ASan covers texts <=4 lines x 2 sets, 5-line texts x 1 set, the 20-set macros and all other tables. '
-                'set() histories of 4..19 calls are only covered by the 20-call macros. A name without "/" is taken to address the entries before the first header if the file has any, else the first section '
-                '(the class\'s "current section"); the full product 5 lines x 3 sets of DESIGN.md (3.3e8 file round trips) is not run.',
-  'rule': 'odometer enumeration: texts = lines^<=N x eol x final-newline; histories = ops^<=K x write position; tables = cells^(rows*cols) x 2 write modes; '
+                'digit-only strings are excluded from CSV string cells because a CSV cell carries no type. The way of writing is varied exhaustively on short texts and histories only: write() is the same function with the same state whether the destructor '
+                'or the user calls it, so the larger products use the destructor alone. The largest products run in part c18_deep without sanitizer (value and order oracles only); everything up to 3-line texts x 2 sets, 4-line texts x 1 set, '
+                'the 20-call histories, the long texts and all tables but the 6-cell ones also run under ASan. set() histories of 4..19 calls are only covered by the 20-call macros. A name without "/" is taken to address the entries before the '
+                'first header if the file has any, else the first section (the class\'s "current section"). Non-rectangular tables (rows flushed with "\\n", arrays of another length than the header) are outside "tables up to 30x8" and not written. '
+                'The first 8 failing cases of each signature are listed and the rest counted (counter failing_cases_beyond_the_8_listed_per_signature), so that one defect does not hide another. '
+                'The full products 5 lines x 3 sets and A10^5 are not run.',
+  'rule': 'odometer enumeration: texts = lines^<=N x eol x final-newline; histories = ops^<=K x ways of writing; tables = cells^(rows*cols) x 2 write modes x (configuration, reader); '
           'evaluations = cases executed; distinct_nontrivial = cases with at least one entry in the file or one set() (INI) / all tables (CSV); each case distinct by construction within a part '
-          '(c18_deep repeats the smaller INI spaces of c18_inicsv without sanitizer)',
+          '(c18_deep repeats, without sanitizer, the destructor-written cases of the ASan part for texts <=3 lines x histories <=2)',
   'parts': [{'bin': 'c18_inicsv', 'flavour': 'asan', 'deadline': {'quick': 900, 'thorough': 2400}},
             {'bin': 'c18_deep', 'flavour': 'plain', 'thorough_only': True, 'deadline': {'quick': 900, 'thorough': 3600}}],
-  'bounds': {'quick': 'INI: texts <=4 lines (4681 x eol x final newline) x histories <=2 sets (111) x {destructor, write()+destructor}; 20-set macros x 3 write positions on texts <=3 lines; '
-                      'CSV: all tables 1x1,1x2,2x1,2x2,3x1,1x3 x {cell-wise, arrays}; 26 fills of every shape <=30x8',
-             'thorough': 'INI (ASan): quick space + 5-line texts x histories <=1 set; 20-set macros x 6 write positions. INI (plain): texts <=5 lines x histories <=2 sets; texts <=4 lines x histories <=3 sets; '
-                         'texts <=3 lines x histories <=3 sets x write() after every prefix. CSV: quick space + (plain) all 13^6 tables 3x2 and 2x3'},
+  'bounds': {'quick': 'INI (ASan, 0.83 M cases): A10 texts <=3 lines (4431 text variants) x histories <=1 x {D,W,R,B}; A10 texts <=2 lines x 1 set x {O,b}, x 2 sets x {D,W}; A10 texts <=1 line x 2 sets x {P,O,R,B,b}; '
+                      'A7 3-line LF texts x 2 sets x D; A7 4-line LF texts x <=1 set x D; 20-set macros x 3 write positions on A10 texts <=2 lines; 10 long texts x histories <=2 x {D,W,R} + macros. '
+                      'CSV (0.39 M cases): all tables 1x1,1x2,2x1 (19 cells), 3x1,1x3 (15 cells) x 5 configuration/reader pairs, 2x2 (15 cells) x 3 pairs, x {cell-wise, arrays}; 38 fills of every shape <=30x8',
+             'thorough': 'INI (ASan, 2.86 M cases): quick space + A10 4-line texts x <=1 set x D; A10 3-line LF texts x 2 sets x D; A10 texts <=1 line x 3 sets x {D,P}; A10 3-line texts x 1 set x {O,b}; 20-set macros on A10 texts <=3 lines. '
+                         'INI (plain, 19.1 M cases): A10 texts <=3 lines x histories <=2 x D; A10 4-line LF texts x histories <=2 x D; A6 5-line LF texts x histories <=2 x D; A7 3-line texts x 3 sets x D; A7 texts <=2 lines x 3 sets x {D,W}; '
+                         'A10 texts <=3 lines (LF) x 2 sets x {P,O,R,b}; A10 3-line texts x 2 sets x W. CSV (ASan 0.65 M, plain 6.4 M cases): quick space with all 5 pairs for 2x2 and for every fill + (plain) all 9^6 tables 3x2 and 2x3 x 3 pairs'},
   'assumptions': ['scratch files on /dev/shm (tmpfs) or /verif/build; LC_ALL=C', 'reference = plain C++ line parser (std:: only) of the text before and after, std::map model of the sets',
-                  'numbers compared by their %.15g rendering (the writer prints %.15g)', 'g++ -O2 + AddressSanitizer (part c18_inicsv); part c18_deep has no memory-safety oracle'],
+                  'numbers compared by the rendering the writer uses (%.15g, %.7g for a float)', 'a reader of a non-default CSV dialect is either unconfigured (files with at least two columns) or given the writer\'s separator and decimal symbol',
+                  'g++ -O2 + AddressSanitizer (part c18_inicsv); part c18_deep has no memory-safety oracle'],
 }
